@@ -84,6 +84,12 @@ def register(lib):
         if cur().decide(zreal(step) == 0):
             raise PyRaise('ZeroDivisionError')
         q = zreal(ops_binop('-', stop, start)) / zreal(step)
+        if cur().ghost.get('float_noise'):
+            # S3b (contracts that ask for it): the quotient as floating point delivers it -- off by a tiny rounding error in either
+            # direction, so a mathematically integral quotient may come out just above the integer and ceil() adds an element
+            eta = z3.Real(cur()._name('arange_rounding_error'))
+            cur().assume_raw(z3.And(eta >= z3.RealVal('-1/1000000'), eta <= z3.RealVal('1/1000000')))
+            q = q + eta
         n = mk_int(z3.If(q <= 0, 0, z3.If(z3.ToReal(z3.ToInt(q)) == q, z3.ToInt(q), z3.ToInt(q) + 1)))
         cur().ex.__dict__.setdefault('axioms', set()).add('S3a-float-arange-as-real')
         arr = SArray((n,), lambda idx: ops_binop('+', start, ops_binop('*', idx[0], step)), 'float64')
@@ -294,6 +300,22 @@ def register(lib):
         c.ghost.setdefault('npall', []).append((b, a))
         return SBool(b)
     E['numpy.all'] = np_all
+
+    def np_rint(I, x):
+        # round to the nearest integer (ties to even; a tie needs an exact .5, modelled as rounding up -- AX-NP-RINT)
+        x = untag(x)
+        inner = x.value if isinstance(x, NPScalar) else x
+        if isinstance(inner, SArray):
+            return SArray(inner.shape, lambda idx, a=inner: np_rint(I, a.fn(idx)), inner.dtype)
+        if isinstance(inner, (int, SInt)):
+            return x
+        if isinstance(inner, float):
+            import math
+            r = float(round(inner))
+        else:
+            r = mk_float(z3.ToReal(z3.ToInt(zreal(inner) + z3.RealVal('1/2'))))
+        return NPScalar(r, 'float64') if isinstance(x, NPScalar) else r
+    E['numpy.rint'] = np_rint
 
     def np_full(I, shape, fill_value, dtype=None, **kw):
         shape = untag(shape)
